@@ -566,16 +566,23 @@ rng = chk.rng('presentations')
 all_specs += [('gen-%d' % i, s) for i, s in enumerate(gen_specs(rng))]
 
 pending = []   # (cid, spec, mol_in, info, res)
+timed_out_blocks = set()
 lines = []
 t_budget = 780 if chk.thorough else 55
 for cid, spec in all_specs:
     if chk.elapsed() > t_budget and not cid.startswith('corpus'):
         chk.count('skipped_for_time')
         continue
+    r0 = spec['residues'][0]
+    if any((r['ff'], r['block']) in timed_out_blocks and r.get('names', 'keep') in ('x', 'shuffle') for r in spec['residues']):
+        # this block already ran into the ISMAGS time-out under scrambled names: do not burn the budget again
+        chk.count('skipped_after_timeout_of_same_block')
+        continue
     try:
         mol, info = present(spec)
     except KeyError as err:
         chk.count('spec_skipped_%s' % type(err).__name__)
+        chk.notes.append('spec skipped (%r): %s' % (err, cid))
         continue
     mol_in = mol.copy()
     res = run_real(mol, spec.get('include_graph', False))
@@ -587,6 +594,7 @@ for cid, spec in all_specs:
     chk.count('ff_' + r0['ff'])
     if res['status'] == 'timeout':
         chk.count('inconclusive_timeout')
+        timed_out_blocks.update((r['ff'], r['block']) for r in spec['residues'] if r.get('names', 'keep') in ('x', 'shuffle'))
         chk.notes.append('inconclusive (ISMAGS time-out %.0f s): %s %s' % (CASE_TIMEOUT, cid, json.dumps(spec)[:200]))
         continue
     if res['status'].startswith('error'):
